@@ -75,6 +75,21 @@ func TestVerifReplay(t *testing.T) {
 		}
 		pool = nx
 	}
+	// suffix numbers far beyond the small ones above (date stamps, powers of two): the suffix name still decides first
+	for _, name := range []string{"alpha", "beta", "pre", "rc", "cvs", "svn", "git", "hg", "p"} {
+		for _, num := range []int{255, 20060810, 16777216, 4294967297, 1000000000000} {
+			for _, second := range []int{-1, 3} {
+				v := ver{nums: []int{1, 0}, rev: -1, sufs: []suf{{name, num}}}
+				text := fmt.Sprintf("1.0_%s%d", name, num)
+				if second >= 0 {
+					v.sufs = append([]suf{sufs[second]}, v.sufs...)
+					text = fmt.Sprintf("1.0_%s%d_%s%d", sufs[second].name, sufs[second].num, name, num)
+				}
+				v.text = text
+				pool = append(pool, v)
+			}
+		}
+	}
 	sgn := func(x int) int { if x < 0 { return -1 }; if x > 0 { return 1 }; return 0 }
 	cmpSuf := func(a, b suf) int {
 		if rank[a.name] != rank[b.name] {
@@ -163,7 +178,7 @@ func (w *World) apkBoundedVC() []VC {
 	}
 	return []VC{{Name: "alpine.(*Version).Compare.apk-order.bounded", Prop: "C14", Kind: "bounded.api", Fn: "alpine.(*Version).Compare", Pos: w.pos(fn.Pos()),
 		Clause:  "Compare(NewVersion(x), NewVersion(y)) has the sign of the apk-tools ordering on well-formed versions",
-		Bounded: "grid: 8 two-component numeric tuples x letter {none,a,b} x 0-2 suffixes from the nine known names x revision {none,r0,r1} (about 900 versions, all pairs)",
+		Bounded: "grid: 8 two-component numeric tuples x letter {none,a,b} x 0-2 suffixes from the nine known names x revision {none,r0,r1} (about 900 versions, all pairs), plus 90 versions whose suffix numbers are date stamps and powers of two up to 10^12",
 		Run: func() SolveResult {
 			start := time.Now()
 			cx := apkFalsifier(w, fn, vcResult{})
